@@ -3,7 +3,7 @@
 # usage: tools/seed_recheck.sh [seed-id ...]      (default: all)      output: one line per seed, and seeded/<id>/recheck.txt
 cd /verif
 ids="$@"; [ -z "$ids" ] && ids=$(ls seeded)
-WT=/tmp/wt_recheck
+WT=${RECHECK_WT:-/tmp/wt_recheck}
 bad=0
 for id in $ids; do
   prop=${id%%-*}
